@@ -503,7 +503,7 @@ pub fn check(tier: &str) -> i32 {
     let thorough = rep.thorough();
     rep.assume("a receiver that was replaced by a later browse/resolve of the same key is only required to see nothing after the search is ended");
     let scn = Scn { horizon_ms: 2 * 3600 * 1000 };
-    rep.run_bfs(&scn, if thorough { 5 } else { 4 }, Duration::from_secs(if thorough { 3000 } else { 50 }));
+    rep.run_bfs(&scn, if thorough { 6 } else { 4 }, Duration::from_secs(if thorough { 3000 } else { 50 }));
     rep.require("search-start-stop-sequences", "channels_checked");
     rep.require("search-start-stop-sequences", "search_ends_checked");
     rep.require("search-start-stop-sequences", "metrics_after_stop_checked");
